@@ -999,6 +999,8 @@ enum TCmd {
     DropStream { key: String, c: u64, s: u64 },
     /// into_split, both halves kept: later calls go through OwnedReadHalf / OwnedWriteHalf
     Split { key: String },
+    /// turmoil::partition_oneway(from, to) called from host code (model hosts a -> b)
+    CutOneway { from: String, to: String, a: usize, b: usize },
 }
 
 #[derive(Default)]
@@ -1130,6 +1132,12 @@ async fn tcp_exec(
                 rec::emit(json!({"ev":"bind","h":h,"p":p,"kind":kind,"res":res}));
             }
             TCmd::BindPool { .. } => {}
+            TCmd::CutOneway { from, to, a, b } => {
+                turmoil::partition_oneway(from, to);
+                // requests in flight in the cut direction would be doomed; the caller only cuts the
+                // direction opposite to the requests it is interested in
+                rec::emit(json!({"ev":"partition","dirs":[[a, b]],"doomed":[]}));
+            }
             TCmd::DropListener { p } => {
                 if listeners.remove(&p).is_some() {
                     rec::emit(json!({"ev":"drop_listener","h":h,"p":p}));
@@ -2201,6 +2209,7 @@ fn main_tcp_random(args: &[String]) {
     let mode = util::arg(args, "mode").unwrap_or("data".into());
     let pressure = util::arg_u64(args, "pressure", 0);
     let poolruns = util::arg_u64(args, "poolruns", 0);
+    let cutruns = util::arg_u64(args, "cutruns", 0);
     let out = util::arg(args, "out").expect("out=");
     let mut rng = SmallRng::seed_from_u64(seed ^ 0x6d746370);
     let mut all: Vec<Value> = Vec::new();
@@ -2477,6 +2486,25 @@ fn main_tcp_random(args: &[String]) {
                 }
             }
         }
+        // scripted reverse-direction cuts around the handshake (conn mode): see cut_run
+        for r in 0..cutruns {
+            let v6 = r % 2 == 1;
+            let run_seed: u64 = rng.random();
+            CURRENT_CASE.store(2000 + r as i64, std::sync::atomic::Ordering::Relaxed);
+            match catch_all(|| cut_run(nh, cap, v6, run_seed, tick, lmin, lmax, r)) {
+                Ok(tr) => all.extend(tr),
+                Err(msgs) => {
+                    rec::take();
+                    let cause = msgs.first().cloned().unwrap_or_default();
+                    if documented_panic(&cause) {
+                        npanic += 1;
+                    } else {
+                        all.push(json!({"ev":"reset"}));
+                        all.push(json!({"ev":"panic","msg":cause,"run":format!("cut {r}")}));
+                    }
+                }
+            }
+        }
         // scripted back-pressure scenarios (data mode): see pressure_run
         for r in 0..pressure {
             let v6 = r % 2 == 1;
@@ -2540,6 +2568,50 @@ fn pool_run(nh: usize, cap: usize, nconn: u64, v6: bool, seed: u64, tick: u64, l
         }
         if run.links().is_empty() {
             run.trace.push(json!({"ev":"quiet"}));
+        }
+    }
+    run.finalize();
+    std::mem::take(&mut run.trace)
+}
+
+/// The direction listener -> connector is cut one-way from host code of a host that runs before
+/// the listener's host, in the very step in which the connector's request becomes due (the link is
+/// held while the connector starts and released right before that step).  Only the reverse
+/// direction is cut: the request must still reach the listener and the connect must succeed.
+#[allow(clippy::too_many_arguments)]
+fn cut_run(nh: usize, cap: usize, v6: bool, seed: u64, tick: u64, lmin: u64, lmax: u64, variant: u64) -> Vec<Value> {
+    let mut run = TcpRun::with(nh, cap, v6, seed, tick, lmin, lmax, true, 0);
+    run.cmd(nh, TCmd::Bind { p: 1, kind: "any".into() });
+    run.step();
+    let ch = 1usize;
+    run.sim.hold(hostname(ch, nh), "srv".to_string());
+    run.cmd(ch, TCmd::Connect { c: 1, dst: "srv".into(), dh: nh as u64, p: 1, lo: false });
+    run.step();
+    run.sim.release(hostname(ch, nh), "srv".to_string());
+    // variant 0/1: the cut is made in the step the request becomes due, by the connector's own host or
+    // by another host that runs before the listener; variant 2: one step later (control)
+    if variant % 3 == 2 {
+        run.cmd(nh, TCmd::Accept { p: 1 });
+        run.step();
+    }
+    let cutter = if variant % 3 == 1 && nh > 2 { 2 } else { ch };
+    run.cmd(cutter, TCmd::CutOneway { from: "srv".into(), to: hostname(ch, nh), a: nh, b: ch });
+    let (mut acc, mut done) = (false, false);
+    for _ in 0..(2 * lmax / tick + 8) {
+        if !acc {
+            run.cmd(nh, TCmd::Accept { p: 1 });
+        }
+        if !done {
+            run.cmd(ch, TCmd::Poll { c: 1 });
+        }
+        run.step();
+        for e in &run.last_results {
+            if e["ev"] == "accept" && e["res"] == "ok" {
+                acc = true;
+            }
+            if e["ev"] == "poll" && e["res"] != "pending" {
+                done = true;
+            }
         }
     }
     run.finalize();
